@@ -5,7 +5,7 @@ from vlib import common as C
 
 WRAPS = ("pthread_rwlock_rdlock pthread_rwlock_wrlock pthread_rwlock_unlock pthread_mutex_lock pthread_mutex_unlock "
          "pthread_cond_wait pthread_cond_timedwait pthread_spin_lock pthread_spin_unlock iwp_pread open64 open "
-         "iwp_current_time_ms").split()
+         "iwp_current_time_ms pwrite64 write ftruncate64 msync").split()
 SOURCES = ["h_conc.c", "h_side_fsm.c", "h_side_exf.c", "h_side_wal.c"]
 EXCLUDE = ("iwkv.c", "iwfsmfile.c", "iwexfile.c", "iwal.c")
 
@@ -33,6 +33,7 @@ class Res:
         self.stderr = ""
         self.obs = []
         self.f25 = None
+        self.mainwrites = []
         self.rc = 0
 
 
@@ -67,6 +68,8 @@ def parse(out_lines):
             cur.close = ln[6:]
         elif ln.startswith("hang"):
             cur.hang = ln
+        elif ln.startswith("mainwrite "):
+            cur.mainwrites.append(ln)
         elif ln.startswith("f25 "):
             cur.f25 = ln
         elif ln.startswith("obs "):
